@@ -129,6 +129,16 @@ fn valve_to_game(v: &Value) -> Value {
     }
 }
 
+/// The Minecraft request settings the caller's extra settings denote: each field as given, the documented default where unset.
+fn mc_request_settings(extras: &Option<ExtraRequestSettings>) -> Option<minecraft::RequestSettings> {
+    extras.as_ref().map(|x| {
+        minecraft::RequestSettings {
+            hostname: x.hostname.clone().unwrap_or_else(|| "gamedig".to_string()),
+            protocol_version: x.protocol_version.unwrap_or(-1),
+        }
+    })
+}
+
 fn extra_to_valve_gather(e: &ExtraRequestSettings) -> vp::GatheringSettings { e.clone().into() }
 
 pub fn replay(fctx: &fuzz::Ctx, seed: u64, reps: usize, rep: &mut Report, trace: &mut Vec<Value>) {
@@ -159,9 +169,11 @@ pub fn replay(fctx: &fuzz::Ctx, seed: u64, reps: usize, rep: &mut Report, trace:
             // (the only cases in which the module path is comparable), then silence and a partial answer with the caller's
             // timeout settings (retries 1), then a valid and a partial answer with default extra settings
             // (n even: port omitted, n odd: port given - every behaviour meets both)
-            const FIXED: [(&str, u8); 16] = [("silent", 0), ("valid", 0), ("partial", 0), ("foreign", 0), ("malformed", 0), ("dedicated", 0),
+            const FIXED: [(&str, u8); 18] = [("silent", 0), ("valid", 0), ("partial", 0), ("foreign", 0), ("malformed", 0), ("dedicated", 0),
                                             ("valid", 0), ("silent", 0), ("foreign", 0), ("partial", 0), ("dedicated", 0), ("malformed", 0),
-                                            ("silent", 1), ("partial", 1), ("valid", 2), ("partial", 2)];
+                                            ("silent", 1), ("partial", 1), ("valid", 2), ("partial", 2),
+                                            // 3: the caller's extra settings carry a host name AND a protocol version (Minecraft handshake)
+                                            ("valid", 3), ("silent", 3)];
             let fixed: Option<(&str, u8)> = FIXED.get(n).copied();
             let behaviour = fixed.map_or(behaviour, |f| f.0);
             let is_valve = matches!(game.protocol, Protocol::Valve(_) | Protocol::PROPRIETARY(P::TheShip));
@@ -212,7 +224,8 @@ pub fn replay(fctx: &fuzz::Ctx, seed: u64, reps: usize, rep: &mut Report, trace:
             let script = base.script();
             let ip: IpAddr = "127.0.0.1".parse().unwrap();
             // caller-supplied settings: none (then the module path is comparable too), or extra settings with some fields unset
-            let extras: Option<ExtraRequestSettings> = match if let Some((_, k)) = fixed { if k == 2 { 0 } else { 5 } } else { rng.gen_range(0 .. 6) } {
+            let extras: Option<ExtraRequestSettings> = match if let Some((_, k)) = fixed { if k == 2 { 0 } else if k == 3 { 9 } else { 5 } } else { rng.gen_range(0 .. 6) } {
+                9 => Some(ExtraRequestSettings::default().set_hostname("mc.example.org".to_string()).set_protocol_version(47)),
                 0 => Some(ExtraRequestSettings::default()),
                 1 => Some(ExtraRequestSettings::default().set_gather_players(gamedig::protocols::types::GatherToggle::Skip)),
                 2 => Some(ExtraRequestSettings::default().set_check_app_id(false).set_gather_rules(gamedig::protocols::types::GatherToggle::Enforce)),
@@ -303,8 +316,14 @@ pub fn replay(fctx: &fuzz::Ctx, seed: u64, reps: usize, rep: &mut Report, trace:
                 Protocol::PROPRIETARY(p) => {
                     match p {
                         P::TheShip => Some(run_call(&script, m, || vp::query(&sock, vp::Engine::new(2400), None, tsettings))),
-                        P::Minecraft(None) => Some(run_call(&script, m, || minecraft::protocol::query(&sock, tsettings, None))),
-                        P::Minecraft(Some(minecraft::Server::Java)) => Some(run_call(&script, m, || minecraft::protocol::query_java(&sock, tsettings, None))),
+                        P::Minecraft(None) => {
+                            let rs = mc_request_settings(&extras);
+                            Some(run_call(&script, m, || minecraft::protocol::query(&sock, tsettings, rs)))
+                        }
+                        P::Minecraft(Some(minecraft::Server::Java)) => {
+                            let rs = mc_request_settings(&extras);
+                            Some(run_call(&script, m, || minecraft::protocol::query_java(&sock, tsettings, rs)))
+                        }
                         P::Minecraft(Some(minecraft::Server::Bedrock)) => Some(run_call(&script, m, || minecraft::protocol::query_bedrock(&sock, tsettings))),
                         P::Minecraft(Some(minecraft::Server::Legacy(g))) => {
                             let g = *g;
